@@ -319,11 +319,28 @@ func (p *Program) GenFunc(fc *FuncContract, prop string) (res *FuncResult) {
 		}
 		var outs []ModelVar
 		outs = append(outs, inputs...)
+		proved := map[int]Term{} // postconditions already stated at this return, usable as `using post(k)` by later ones
 		for i, e := range fc.Ensures {
 			if !hasProp(e.Props, prop) {
 				continue
 			}
 			goal, extra := rsc.evalGoal(e.Expr)
+			if len(extra) == 0 {
+				proved[i+1] = goal
+			}
+			for _, u := range e.Using {
+				if u.Op == "call" && u.Name == "post" && len(u.Args) == 1 && u.Args[0].Op == "lit" {
+					var k int
+					fmt.Sscanf(u.Args[0].Name, "%d", &k)
+					g, ok := proved[k]
+					if !ok || k >= i+1 {
+						panic(specError{fmt.Sprintf("using post(%d): only an earlier, quantifier-free postcondition of the same property can be used", k)})
+					}
+					extra = append(extra, fmt.Sprintf("(assert %s)", Implies(r.reach, g).S))
+					continue
+				}
+				extra = append(extra, fmt.Sprintf("(assert %s)", Implies(r.reach, rsc.evalBool(u)).S))
+			}
 			name := fmt.Sprintf("%s.post.%d", fc.Key(), i+1)
 			if len(f.rets) > 1 {
 				name = fmt.Sprintf("%s@ret%d", name, ri+1)
